@@ -26,6 +26,10 @@ func (x *Exec) funcVarCall(f *frame, in ssa.Instruction, c *ssa.CallCommon, args
 	if fa, ok := ld.X.(*ssa.FieldAddr); ok && x.fc != nil {
 		fname := deref(fa.X.Type()).Underlying().(*types.Struct).Field(fa.Field).Name()
 		for _, pf := range strings.Fields(x.fc.Opts["purecalls"]) {
+			if pf == fname && c.Signature().Results().Len() == 0 {
+				x.assumed[fmt.Sprintf("%s: calls through the function value in field %q have no effect on the modelled state", x.short, fname)] = true
+				return Val{}, true
+			}
 			if pf == fname && c.Signature().Results().Len() == 1 {
 				rt := c.Signature().Results().At(0).Type()
 				r := x.havocValue(st, rt, "fv_"+fname)
@@ -40,6 +44,19 @@ func (x *Exec) funcVarCall(f *frame, in ssa.Instruction, c *ssa.CallCommon, args
 	g, ok := ld.X.(*ssa.Global)
 	if !ok {
 		return Val{}, false
+	}
+	// test seams for the clock: package variables `now = time.Now` (func() time.Time) and
+	// `afterFunc = time.AfterFunc` (func(time.Duration, func()) *time.Timer)
+	if sig := c.Signature(); sig.Results().Len() == 1 {
+		rt := sig.Results().At(0).Type()
+		if sig.Params().Len() == 0 && rt.String() == "time.Time" {
+			x.assumed[fmt.Sprintf("extern %s (package variable bound to time.Now): arbitrary time value, no effect on modelled state", g.Name())] = true
+			return Val{T: x.havocValue(st, rt, "now")}, true
+		}
+		if sig.Params().Len() == 2 && rt.String() == "*time.Timer" && sig.Params().At(0).Type().String() == "time.Duration" {
+			x.assumed[fmt.Sprintf("extern %s (package variable bound to time.AfterFunc): registers a callback, no synchronous effect on modelled state", g.Name())] = true
+			return Val{T: x.havocValue(st, rt, "timer")}, true
+		}
 	}
 	if randVarRe.MatchString(g.Name()) && len(args) == 1 {
 		rt := c.Signature().Results().At(0).Type()
